@@ -605,7 +605,12 @@ impl<'tcx> Cx<'tcx> {
             path = format!("{}::promoted[{}]", path, p);
         }
         o = o.s("path", &path);
-        o = o.s("def_kind", &format!("{:?}", dk));
+        let dks = match dk {
+            DefKind::AssocConst { .. } => "AssocConst".to_string(),
+            DefKind::Const { .. } => "Const".to_string(),
+            _ => format!("{:?}", dk),
+        };
+        o = o.s("def_kind", &dks);
         o = o.s("name", &tcx.opt_item_name(def_id).map(|s| s.to_string()).unwrap_or_default());
         let root = tcx.typeck_root_def_id(def_id);
         o = o.s("root", &self.path(root));
@@ -867,6 +872,15 @@ impl Callbacks for Cb {
                     for (pi, pb) in promoted.iter_enumerated() {
                         bodies.push(cx.body(ldid, pb, Some(pi.index())));
                     }
+                }
+                // associated / free constants with a body of their own: their MIR is what const-eval would run; exported so
+                // that sibling adapter impls (`const TAG: Tag = <IC as Constraint>::TAG`) can be compared
+                DefKind::AssocConst { .. } | DefKind::Const { .. } => {
+                    if !tcx.is_mir_available(def_id) {
+                        continue;
+                    }
+                    let body = tcx.mir_for_ctfe(def_id);
+                    bodies.push(cx.body(ldid, body, None));
                 }
                 _ => {}
             }
